@@ -10,6 +10,10 @@ Two kinds of cases around the real `DeepONet.forward` / `BranchNet.fix_input` / 
          loss = sum out^2 + sum (d out/dx)^2 + sum (Laplacian)^2.  Both nets are also compared with the monitor's own
          evaluation of the inner product from the weights, with the einsum of the sub-nets' own outputs, and
          re-evaluated on sub-batches of functions / locations and with the other functions replaced.
+  history (float32) one DeepONet object and 3-6 operations from {fix_branch_input(obj)+forward under no_grad | with
+         grad | forward(trunk, obj), load_state_dict(other weights), one SGD step, _forward_branch(function set)+forward};
+         the SAME input objects (callable, tensor, Points, FunctionSet) are reused across steps; after every forward the
+         output must be the monitor's own inner product for the current weights and the current input, with its shape.
   forms  (float32) one DeepONet; the same branch functions supplied as FunctionSet / tensor / Points (3-D batch and
          2-D single function) / callable, through fix_branch_input and through forward(trunk, branch); two different
          function batches alternate so that a stale cached branch output is visible.  Every output is compared with
@@ -31,7 +35,7 @@ RULE = ("seeded generator over trunk space (1-3 variables, total dim 1-5, declar
         "functions x 1-40 locations x trunk input rank 2|3 x 5 requires_grad patterns.  A case is non-trivial when the "
         "deciding comparison of its kind was made (twin: derivatives and parameter gradients of both nets; forms: at "
         "least three input forms); distinct = (kind, branch type, output dim, K class, #functions class, trunk rank, "
-        "normalisation, grouped flags).")
+        "normalisation, grouped flags); history cases: (branch type, output dim, trunk rank, fast|plain, operation pattern).")
 REQUIRED_REACH = ["DeepONet._forward_branch", "FunctionSetCollection.create_function_batch", "linear.forward", "linear.backward", "TrunkLinear.forward", "TrunkNet._reshape_multidimensional_output",
                   "BranchNet._reshape_multidimensional_output", "BranchNet.fix_input", "DeepONet.forward",
                   "DeepONet.fix_branch_input", "FCTrunkNet.forward", "FCBranchNet.forward", "ConvBranchNet1D.forward",
@@ -79,12 +83,62 @@ def gen_cases(seed, tier):
         if kind == "forms":
             c["fast"] = bool(rng.random() < 0.6)
         cases.append(c)
+    # multi-step histories on ONE DeepONet object (appended, so the streams above do not change)
+    n_hist = 200 if tier == "quick" else 6000
+    for i in range(n_hist):
+        big = tier != "quick" and rng.random() < 0.3
+        s = N.gen_spec(rng, big)
+        F = int(rng.choice([1, 2, 3, 4, 5], p=[0.1, 0.3, 0.25, 0.2, 0.15]))
+        objs = [str(o) for o in rng.choice(HIST_OBJECTS, size=int(rng.integers(2, 4)), replace=False)]
+        if "functionset" not in objs and rng.random() < 0.6:
+            objs.append("functionset")
+        c = {"kind": "history", "spec": s, "F": F, "n_loc": int(rng.choice([1, 2, int(rng.integers(3, 12))])),
+             "rank": int(rng.choice([3, 2], p=[0.6, 0.4])), "permute": bool(rng.random() < 0.3),
+             "params_a": N.gen_params(rng, F), "params_b": N.gen_params(rng, F), "fast": bool(rng.random() < 0.6),
+             "objects": objs, "ops": _gen_history(rng, objs), "seed": int(rng.integers(0, 2 ** 31))}
+        cases.append(c)
     return cases
+
+
+HIST_OBJECTS = ["callable", "tensor3d", "tensor2d", "points3d", "points2d", "functionset"]
+
+
+def _gen_history(rng, objs):
+    """3-6 operations; input objects are reused across steps.  Most histories contain a 'sandwich'
+    evaluate(obj) -> something that changes the weights or the cached branch output -> evaluate(same obj)."""
+    def ev(obj, grad=None):
+        return {"op": "eval", "obj": obj, "grad": bool(rng.random() < 0.3) if grad is None else grad,
+                "via_forward": bool(rng.random() < 0.4)}
+
+    def change():
+        k = str(rng.choice(["load", "sgd", "train"] if "functionset" in objs else ["load", "sgd"]))
+        if k == "load":
+            return {"op": "load", "which": int(rng.integers(0, 2))}
+        if k == "sgd":
+            return {"op": "sgd", "obj": str(rng.choice(objs))}
+        return {"op": "train"}
+    n = int(rng.integers(3, 7))
+    ops = []
+    if rng.random() < 0.85:
+        o = str(rng.choice(objs))
+        ops = [ev(o, grad=bool(rng.random() < 0.15)), change()]
+        if rng.random() < 0.3 and n >= 4:
+            ops.append(change())
+        ops.append(ev(o, grad=bool(rng.random() < 0.15)))
+    while len(ops) < n:
+        ops.append(ev(str(rng.choice(objs))) if rng.random() < 0.55 else change())
+    if ops[-1]["op"] == "load":
+        ops.append(ev(str(rng.choice(objs))))
+    return ops
 
 
 def _cls(c):
     s = c["spec"]
     K = s["K"]
+    if c["kind"] == "history":
+        pat = "".join({"eval": "e", "load": "L", "sgd": "S", "train": "T"}[o["op"]] + ("g" if o.get("grad") else "")
+                      for o in c["ops"])
+        return "history/%s/o%d/r%d/f%d/%s" % (s["branch"], N.out_dim(s), c["rank"], c["fast"], pat)
     return "%s/%s/o%d/K%s/F%s/r%d/n%d/p%d%s" % (c["kind"], s["branch"], N.out_dim(s), "1" if K == 1 else ("s" if K <= 4 else "l"),
                                                 "1" if c["F"] == 1 else "m", c["rank"], 1 if s["norm"] else 0,
                                                 int(c["permute"]), "" if c["kind"] == "twin" else "/f%d" % c["fast"])
@@ -494,6 +548,126 @@ def _run_forms(ctx):
     ctx.count("forms_agreeing_with_reference", forms_ok)
 
 
+# ---------------------------------------------------------------------------------------------
+# history cases
+# ---------------------------------------------------------------------------------------------
+
+def _run_history(ctx):
+    """One DeepONet object, 3-6 operations, the same input objects reused across steps.  After every forward the
+    output must be the inner product for the CURRENT weights and the CURRENT branch input (value and shape)."""
+    from torchphysics.problem.spaces import Points, Space
+    from torchphysics.problem.domains import CustomFunctionSet
+    from torchphysics.problem.samplers import DataSampler
+    c, s, res = ctx.c, ctx.s, ctx.res
+    dt = torch.float32
+    net, fsp, sampler = N.build(s, c["fast"], c["seed"])
+    others = [{k: v.clone() for k, v in N.build(s, c["fast"], c["seed"] + 101 + j)[0].state_dict().items()}
+              for j in range(2)]
+    g = torch.Generator().manual_seed(c["seed"] + 1)
+    rows = _trunk_rows(c, g, dt)
+    F, ch, var = c["F"], s["fn_ch"], s["fn_in"]["var"]
+    ctx.mech["fast"] = c["fast"]
+    Va, _ = _disc_values(c, sampler, c["params_a"], dt)
+    Vb, _ = _disc_values(c, sampler, c["params_b"], dt)
+    ka, kb = torch.tensor(c["params_a"], dtype=dt), torch.tensor(c["params_b"], dtype=dt)
+    j2 = F - 1
+    # persistent input objects and the monitor's own discretisation of each
+    pool = {"callable": (_named_fn([var], ch, ka[0]), Va[0:1]),
+            "tensor3d": (Va.clone(), Va),
+            "tensor2d": (Vb[j2].clone(), Vb[j2:j2 + 1]),
+            "points3d": (Points(Vb.clone(), Space({"f": ch})), Vb),
+            "points2d": (Points(Va[j2].clone(), Space({"f": ch})), Va[j2:j2 + 1]),
+            "functionset": (CustomFunctionSet(fsp, DataSampler({"k": kb.clone()}), _named_fn(["k", var], ch)), Vb)}
+    opt = torch.optim.SGD(net.parameters(), lr=0.02)
+    tol = 1e-4
+    iteration = 0
+    last_eval = {}          # object name -> index of the step that last evaluated it
+    changed_since = {}      # object name -> list of changing ops since then
+    prev = "start"
+    sandwiches = 0
+    all_ok = True
+
+    def forward(name, grad, via_forward, step):
+        obj, V = pool[name]
+        nf = V.shape[0]
+        pts, _ = _trunk_points(c, rows, nf, c["rank"], False)
+        with (torch.enable_grad() if grad else torch.no_grad()):
+            if via_forward:
+                out = net(pts, obj)
+            else:
+                net.fix_branch_input(obj)
+                out = net(pts)
+        return out, V, nf
+
+    def check(out, V, nf, step, op, name, history, changes=""):
+        nonlocal all_ok
+        t = out.as_tensor.detach()
+        want_shape = (nf, c["n_loc"], N.out_dim(s))
+        mech = dict(op=op, form=name, prev_op=prev.split(":")[0], same_object_reused_after=changes)
+        if tuple(t.shape) != want_shape:
+            ctx.res["judged"] += 1
+            ctx.violate("stale_or_wrong_branch_output", "step %d (%s %s after %s): output shape %s, the current input has "
+                        "%d function(s) x %d locations x %d components" % (step, op, name, history or prev, tuple(t.shape),
+                                                                            nf, c["n_loc"], N.out_dim(s)), **mech)
+            all_ok = False
+            return False
+        own = _own_reference(ctx, net, rows, V)
+        if not bool(torch.isfinite(own[0]).all()):
+            ctx.count("degenerate_nonfinite_skipped")
+            return False
+        ok = _check_vs_own(ctx, "step %d (%s %s after %s): output vs the monitor's own inner product for the current "
+                                "weights and the current input" % (step, op, name, history or prev), t, own, tol, **mech)
+        all_ok &= ok
+        return ok
+
+    for step, o in enumerate(c["ops"]):
+        op = o["op"]
+        ctx.count("history_op_" + op + ("_grad" if o.get("grad") else ""))
+        if op == "load":
+            _lib(ctx, "load_state_dict", lambda: net.load_state_dict(others[o["which"]]), op=op)
+            for k in changed_since:
+                changed_since[k].append("load")
+        elif op == "train":
+            iteration += 1
+            fset, V = pool["functionset"]
+            pts, _ = _trunk_points(c, rows, V.shape[0], c["rank"], False)
+            out = _lib(ctx, "_forward_branch + forward", lambda: (net._forward_branch(fset, iteration_num=iteration),
+                                                                  net(pts))[1], op=op)
+            if out is not None:
+                check(out, V, V.shape[0], step, op, "functionset", "")
+            for k in changed_since:
+                changed_since[k].append("train")
+        else:
+            name = o["obj"]
+            grad = True if op == "sgd" else o["grad"]
+            r = _lib(ctx, "%s with the branch input %s" % (op, name),
+                     lambda: forward(name, grad, o.get("via_forward", False), step), op=op, form=name)
+            if r is not None:
+                out, V, nf = r
+                hist = "+".join(changed_since.get(name, [])) if name in last_eval else ""
+                ok = check(out, V, nf, step, op, name, ("same object evaluated at step %d, then %s" % (last_eval[name], hist))
+                           if hist else "", hist)
+                if hist and not grad:
+                    ctx.count("history_reevaluations_same_object_no_grad_after_" + hist.split("+")[0])
+                    if ok:
+                        sandwiches += 1
+                last_eval[name] = step
+                changed_since[name] = []
+                if op == "sgd" and tuple(out.as_tensor.shape) == (nf, c["n_loc"], N.out_dim(s)):
+                    loss = (out.as_tensor ** 2).mean()
+                    if bool(torch.isfinite(loss)):
+                        opt.zero_grad()
+                        loss.backward()
+                        torch.nn.utils.clip_grad_norm_(net.parameters(), 1.0)
+                        opt.step()
+                        ctx.count("history_sgd_steps_taken")
+                    for k in changed_since:
+                        changed_since[k].append("sgd")
+        prev = op + (":" + o["obj"] if "obj" in o else "")
+    ctx.count("history_sandwiches_held", sandwiches)
+    res["nontrivial"] = sandwiches >= 1 and all_ok
+
+
 def _named_fn(argnames, ch, ki=None):
     """A plain Python function with the given positional argument names, as a user would pass it:
     f(k, s) for a function set, f(s) with fixed parameters for a single callable."""
@@ -516,6 +690,8 @@ def run_case(c):
     ctx.count("cases_" + c["kind"])
     if c["kind"] == "twin":
         _run_twin(ctx)
+    elif c["kind"] == "history":
+        _run_history(ctx)
     else:
         _run_forms(ctx)
     return res
